@@ -580,7 +580,7 @@ func (f *tmFam) genDep(r *hx.Run) {
 				gen := &tmHdrSpec{ver: ver, chain: g.chain, height: g.height, vh: "x9", nvh: g.hashOf(g.cur, ver), nilCommit: true}
 				r.Do("genesis " + g.def(gen))
 				h0 := g.height + int64(r.Rng.Intn(3)) // at or above the tracked height
-				hA := mkHdr(h0, "r1", 1)               // least power above two thirds
+				hA := mkHdr(h0, "r1", 1)              // least power above two thirds
 				hB := mkHdr(h0, "r2", 0)
 				hC := mkHdr(h0, "x0", 0)
 				hBad := mkHdr(h0, "r1", 2) // greatest power not above two thirds
